@@ -502,10 +502,10 @@ class World:
         stream = self.res[name]
         limit = op.get("n")
         count = 0
+        if limit == 0:
+            return
         self.log(a, "iter+", name)
         try:
-            if limit == 0:
-                return
             async for value in stream:
                 self.log(a, "iter.item", name, value)
                 count += 1
